@@ -109,6 +109,8 @@ def check(ctx, rep):
              "fall-through raises FileNotFound; gethandler overrides return self or a fresh getHandler()", floor=10)
     rep.rule("R01d", "before the gate only stat: handler constructors, the filter and the multiplexer prologue have no open/list/exec effect", floor=10)
     rep.rule("R01e", "handlers relaxing the filter have no file-system/exec effect in any method a protocol calls", floor=1)
+    rep.rule("R01m", "a selector that a handler hands back to handler selection starts with '/': the file-system view joins root and selector "
+             "as text, so `<root>` + `x` names a neighbour of the root - and the selector filter has nothing against `x`", floor=2)
     rep.rule("R01f", "every file-system/exec call site in handlers/protocols/gopherentry is either inside VFS_Real on root+selector, "
              "or acts on a path of shape root + accepted selector + safe suffix (R01b, R01h)", floor=20)
     rep.rule("R01g", "percent-decoding appears only in protocol handle() before handler selection; none in handlers/", floor=4)
@@ -277,6 +279,9 @@ def check(ctx, rep):
         visited_sites.add((rec["func"], id(rec["call"])))
         mode = rec["mode"]
         problems = []
+        if mode == "gate":
+            slash_gate_obligation(ctx, rep, "R01m", fq, ctext, rec)
+            continue
         if mode == "ctor":
             # handler constructed directly (not through getHandler): selector must have an accepted shape
             for alt in sorted(rec["values"]):
@@ -480,3 +485,80 @@ def _arg_value(eng, func, call):
     finally:
         eng.x_Call = orig
     return captured.get("v", TOPV)
+
+
+# ---------------------------------------------------------------------------------------------- R01m
+_GATE_SELECTORS = ["/1/docs/a.txt", "/0/README", "/0README", "/1", "/1docs", "/0-private/s.txt", "/x/y", "/i", "/h/URL:http://x.example/", "/1/",
+                   "/docs/a.txt", "/7/search", "/g-old/pic.gif", "/", ""]
+
+
+def slash_gate_obligation(ctx, rep, rule, fq, ctext, rec):
+    """One call of HandlerMultiplexer.getHandler from handler code.  By shape: the argument starts with an accepted selector
+    (which starts with '/': the protocols normalise it) or with a constant that does.  Otherwise by evaluation: the class's
+    canhandlerequest() and the calling method are walked on representative selectors; every selector handed on for an accepted
+    request has to start with '/'."""
+    from ..paths import PathLimit
+
+    prog = ctx.prog
+    func, call = rec["func"], rec["call"]
+    bad_alts = []
+    for alt in sorted(rec["values"]):
+        if not alt:
+            continue
+        first = alt[0]
+        if first[0] == "sel" or (first[0] == "c" and str(first[1]).startswith("/")):
+            continue
+        if len(alt) == 1 and first[0] == "obj":
+            continue
+        bad_alts.append(alt)
+    label = f"{fq}: {ctext[:70]}"
+    if not bad_alts:
+        rep.ok(rule, label, ctx.where(func, call), "argument starts with an accepted selector or a constant '/...'", key=f"{rule}|{fq}|{ctext}")
+        return
+    C = func.cls
+    can = prog.resolve_method(C, "canhandlerequest") if C is not None else None
+    problems, decided = [], 0
+    if can is not None:
+        for sel in _GATE_SELECTORS:
+            facts = {"self.selector": Const(sel), "self.searchrequest": Const(None)}
+            inl = lambda fn, t, d: d < 3 and t.bound_cls is not None  # noqa: E731
+            try:
+                verdicts = set()
+                for p in Walker(prog, ctx.resolver, assumptions=dict(facts), exact_loops=True, unroll=4, inline=inl, max_paths=4000).run(can, C, facts=dict(facts)):
+                    verdicts.add(truth(p.value) if p.kind == "return" else ("raise" if p.kind == "raise" else False))
+            except PathLimit:
+                verdicts = {None}
+            if verdicts == {False} or verdicts == {"raise"}:
+                continue  # not this handler's request
+            if verdicts != {True}:
+                continue  # undetermined for this representative
+            seen = []
+
+            def cv(c_, target, st, _seen=seen):
+                if (dotted(c_.func) or "").endswith("getHandler"):
+                    a = holder["w"].cur_args or []
+                    _seen.append(a[0].value if a and a[0].kind == "const" else None)
+                    return Const("<the chosen handler>")
+                if (dotted(c_.func) or "").endswith("init_default_handlers"):
+                    return Const(None)
+                return None
+
+            holder = {}
+            w = Walker(prog, ctx.resolver, assumptions=dict(facts), call_value=cv, exact_loops=True, unroll=4, inline=inl, max_paths=4000)
+            holder["w"] = w
+            try:
+                list(w.run(func, C, facts=dict(facts)))
+            except PathLimit:
+                seen.append(None)
+            if not seen or any(x is None for x in seen):
+                continue
+            decided += 1
+            for x in seen:
+                if not (isinstance(x, str) and x.startswith("/")):
+                    problems.append(f"for the request {sel!r} the selector {x!r} is handed to handler selection: the file-system view looks for "
+                                    f"`<root>{x}`, outside the root when the configured root has no trailing slash")
+    ok = decided >= 2 and not problems
+    rep.add(rule, label, ok, ctx.where(func, call),
+            "; ".join(sorted(set(problems))[:2]) if problems else
+            ("" if ok else f"the argument need not start with '/' (shape {sorted(bad_alts)[0]}) and its value could not be followed for the class's own requests"),
+            key=f"{rule}|{fq}|{ctext}")
